@@ -6,6 +6,7 @@ import (
 	"net"
 	"sort"
 	"sync"
+	"syscall"
 	"time"
 
 	m3thrift "github.com/uber-go/tally/v4/m3/thrift/v2"
@@ -79,6 +80,60 @@ func (s *sink) close() {
 	_ = s.conn.Close()
 	<-s.done
 }
+
+// fastSink is a loopback UDP receiver without a reader goroutine: loopback
+// delivery happens inside the sender's send call, so after an execution has
+// ended everything it sent is already queued on the socket and can be read
+// without waiting. When fewer datagrams than expected are found it polls for
+// up to two seconds before giving up (never reached unless one is really missing).
+type fastSink struct {
+	conn *net.UDPConn
+	raw  syscall.RawConn
+	addr string
+	buf  []byte
+}
+
+func newFastSink() *fastSink {
+	c, err := net.ListenUDP("udp", &net.UDPAddr{IP: net.IPv4(127, 0, 0, 1)})
+	if err != nil {
+		panic(err)
+	}
+	_ = c.SetReadBuffer(4 << 20)
+	raw, err := c.SyscallConn()
+	if err != nil {
+		panic(err)
+	}
+	return &fastSink{conn: c, raw: raw, addr: c.LocalAddr().String(), buf: make([]byte, 70000)}
+}
+
+func (s *fastSink) readAvailable(out [][]byte) [][]byte {
+	for {
+		n, ok := -1, false
+		_ = s.raw.Read(func(fd uintptr) bool {
+			m, _, err := syscall.Recvfrom(int(fd), s.buf, syscall.MSG_DONTWAIT)
+			if err == nil {
+				n, ok = m, true
+			}
+			return true
+		})
+		if !ok {
+			return out
+		}
+		out = append(out, append([]byte{}, s.buf[:n]...))
+	}
+}
+
+func (s *fastSink) drain(expect int) [][]byte {
+	out := s.readAvailable(nil)
+	deadline := time.Now().Add(2 * time.Second)
+	for len(out) < expect && time.Now().Before(deadline) {
+		time.Sleep(100 * time.Microsecond)
+		out = s.readAvailable(out)
+	}
+	return out
+}
+
+func (s *fastSink) close() { _ = s.conn.Close() }
 
 // m3Message is one decoded emitMetricBatchV2 datagram.
 type m3Message struct {
